@@ -39,7 +39,43 @@ pub fn strategy(min_loops: u8, max_loops: u8) -> impl Strategy<Value = Case> {
         2 => any::<u16>().prop_map(|task| Op::Release { task }),
         3 => any::<u16>().prop_map(|task| Op::AwaitStart { task }),
     ];
-    (min_loops..=max_loops, 0u8..2, proptest::collection::vec(op, 3..16)).prop_map(|(loops, max_size, ops)| Case { loops, max_size, ops })
+    // half of the histories start with a prefix that sets up one of the interesting states for
+    // certain (the suffix is free): a task queued behind a gate and cancelled there, or a
+    // running task that is cancelled while the canceller is held and that then suspends
+    let prefix = prop_oneof![
+        4 => Just(vec![]),
+        2 => (bystander_body(), 1500u16..3000, any::<bool>()).prop_map(|(b, to, join)| {
+            let mut v = vec![Op::Submit { body: Body::GateSuspended, prio: 0 }, Op::AwaitStart { task: 0 }, Op::Submit { body: b, prio: 0 }, Op::Cancel { task: 65535, park_ms: 0 }];
+            if join {
+                v.push(Op::Join { task: 65535, timeout_ms: to });
+            }
+            v.push(Op::Sleep(3));
+            v.push(Op::Release { task: 0 });
+            v.push(Op::Submit { body: Body::Return, prio: 0 });
+            v
+        }),
+        2 => (5u8..60, 20u8..70, 5u8..40).prop_map(|(d, spin, park)| vec![
+            Op::Submit { body: Body::GateSpinThenDelay(d), prio: 0 },
+            Op::Submit { body: Body::Spin(spin), prio: 0 },
+            Op::AwaitStart { task: 0 },
+            Op::Cancel { task: 0, park_ms: park },
+        ]),
+        1 => (bystander_body(), 1u8..30).prop_map(|(b, ms)| vec![
+            // cancel a task twice while another one is running
+            Op::Submit { body: Body::GateSuspended, prio: 0 },
+            Op::AwaitStart { task: 0 },
+            Op::Submit { body: Body::Return, prio: 0 },
+            Op::Cancel { task: 65535, park_ms: 0 },
+            Op::Submit { body: b, prio: 0 },
+            Op::Release { task: 0 },
+            Op::Sleep(ms),
+            Op::Cancel { task: 30000, park_ms: 0 },
+        ]),
+    ];
+    (min_loops..=max_loops, 0u8..2, prefix, proptest::collection::vec(op, 2..14)).prop_map(|(loops, max_size, mut pre, ops)| {
+        pre.extend(ops);
+        Case { loops, max_size, ops: pre }
+    })
 }
 
 fn own_outcome_ok(l: &Log, j: &rt::JoinLog) -> bool {
